@@ -990,12 +990,12 @@ Proof.
   destruct (Sim.process_now S_ tbl draw st4) as [st5|] eqn:E5; [|discriminate].
   intro H. injection H as <-.
   eapply prims_trans; [eapply advance_prims; eauto|].
-  econstructor; [apply (prim_push st1 t EvStop); discriminate|].
-  econstructor; [apply prim_fields; unfold st2, advance_to; repeat split; auto|].
-  econstructor; [apply prim_process; exact E3|].
-  econstructor; [apply (prim_push st3 t (EvComplete s)); discriminate|].
-  econstructor; [apply prim_fields; unfold st4, advance_to; repeat split; auto|].
-  econstructor; [apply prim_process; exact E5|].
+  apply (prims_step _ (push st1 t EvStop (qadd (clock st1) (d_stop S_)))); [apply prim_push; discriminate|].
+  apply (prims_step _ st2); [apply prim_fields; unfold st2, advance_to; repeat split; auto|].
+  apply (prims_step _ st3); [apply prim_process; exact E3|].
+  apply (prims_step _ (push st3 t (EvComplete s) (qadd (clock st3) (d_stopc S_)))); [apply prim_push; discriminate|].
+  apply (prims_step _ st4); [apply prim_fields; unfold st4, advance_to; repeat split; auto|].
+  apply (prims_step _ st5); [apply prim_process; exact E5|].
   apply prims_one. apply prim_fields. apply fields_ok_refl_nextres. intros t' l. apply In_remove_key.
 Qed.
 
@@ -1117,5 +1117,167 @@ Lemma deliveries_once_in_order ops : StronglySorted Rd (deliveries (run_ops init
 Proof. exact (proj1 (deliveries_sorted ops init_state V_init)). Qed.
 
 End Order.
+
+(* ======================================================================== *)
+(*  F. a due report is delivered by the first fetch that polls the trial     *)
+(* ======================================================================== *)
+Lemma lookup_set_key {A} k (v : A) l t : lookup t (set_key k v l) = if Nat.eqb t k then Some v else lookup t l.
+Proof.
+  induction l as [|[k0 v0] l IH]; simpl.
+  - destruct (Nat.eqb t k); reflexivity.
+  - destruct (Nat.eqb k k0) eqn:E; simpl.
+    + apply Nat.eqb_eq in E. subst k0. destruct (Nat.eqb t k); reflexivity.
+    + rewrite IH. destruct (Nat.eqb t k0) eqn:E0; [|reflexivity].
+      apply Nat.eqb_eq in E0. subst k0. apply Nat.eqb_neq in E.
+      destruct (Nat.eqb t k) eqn:E1; [apply Nat.eqb_eq in E1; congruence|reflexivity].
+Qed.
+Lemma lookup_remove_key_neq {A} k (l : list (nat * A)) t : t <> k -> lookup t (remove_key k l) = lookup t l.
+Proof.
+  intro Hne. induction l as [|[k0 v0] l IH]; simpl; [reflexivity|].
+  destruct (Nat.eqb k k0) eqn:E; simpl.
+  - apply Nat.eqb_eq in E. subst k0. rewrite IH. destruct (Nat.eqb t k) eqn:E1; [apply Nat.eqb_eq in E1; congruence|reflexivity].
+  - rewrite IH. reflexivity.
+Qed.
+
+Definition pending_in (st : state) (t : nat) (p : pend) : Prop :=
+  exists l, lookup t (nextres st) = Some l /\ In p l.
+
+Lemma iter_pending_mono st h rest st1 t p :
+  pending_in st t p -> proc_event (set_heap st rest) h = Ok st1 -> pending_in st1 t p.
+Proof.
+  intros (l & Hl & Hp) He. destruct (h_ev h) as [|s| |k i r] eqn:Hev.
+  - destruct (iter_start st rest h st1 Hev He) as (tr & seed & rs & tc & _ & _ & _ & _ & Hn & _). exists l. rewrite Hn. auto.
+  - destruct (iter_complete st rest h st1 s Hev He) as (tr & _ & _ & _ & Hn & _). exists l. rewrite Hn. auto.
+  - destruct (iter_stop st rest h st1 Hev He) as (_ & _ & Hn & _). exists l. rewrite Hn. auto.
+  - destruct (iter_result st rest h st1 k i r Hev He) as (tr & _ & _ & _ & _ & Hn & _).
+    unfold pending_in. rewrite Hn, lookup_set_key. destruct (Nat.eqb t (h_trial h)) eqn:E; [|exists l; auto].
+    apply Nat.eqb_eq in E. subst t. rewrite Hl. eexists. split; [reflexivity|]. apply in_or_app. left. exact Hp.
+Qed.
+
+Lemma process_pending_mono t p fuel st st' : pending_in st t p -> process fuel st = Ok st' -> pending_in st' t p.
+Proof. apply (process_ind (fun s => pending_in s t p)). intros s h rest s1 HI _ _ Hp. eapply iter_pending_mono; eauto. Qed.
+
+Definition noStop (st : state) : Prop := forall x, In x (heap st) -> h_ev x <> EvStop.
+
+(* the time at which report r of a run started at te is due *)
+Definition due_time (te : Q) (r : result) : Q := qadd (qadd te (res_elapsed r)) (d_result S_).
+
+Lemma process_due fuel : forall st st', HInv st -> noStop st -> process fuel st = Ok st' ->
+  (forall x k i r, In x (heap st) -> h_ev x = EvResult k i r -> h_time x <= clock st ->
+     pending_in st' (h_trial x) (k, i, r, h_time x)) /\
+  (forall k run i r, (length (runs st) <= k)%nat -> nth_error (runs st') k = Some run ->
+     nth_error (run_results run) i = Some r -> due_time (run_te run) r <= clock st ->
+     pending_in st' (run_trial run) (k, i, r, due_time (run_te run) r)).
+Proof.
+  induction fuel as [|f IH]; intros st st' HI HN H; simpl in H; [discriminate|].
+  destruct (heap st) as [|h rest] eqn:Hh.
+  - injection H as <-. split; [intros x k i r []|].
+    intros k run i r Hk Hr. assert (nth_error (runs st) k = None) by (apply nth_error_None; exact Hk). congruence.
+  - destruct (Qleb (h_time h) (clock st)) eqn:Hq.
+    + destruct (proc_event (set_heap st rest) h) as [st1|e] eqn:E; [|discriminate].
+      assert (HI1 : HInv st1) by (eapply proc_event_hinv; eauto).
+      assert (Hc1 : clock st1 = clock st) by (apply (proc_event_clock S_ tbl draw _ _ _ E)).
+      assert (HN1 : noStop st1).
+      { intros x Hx. apply (iter_heap st rest h st1 E) in Hx as [Hx|(_ & _ & Hns & _)].
+        - apply HN. rewrite Hh. right. exact Hx.
+        - intro Ev. apply Hns. left. exact Ev. }
+      destruct (IH st1 st' HI1 HN1 H) as [IH1 IH2]. rewrite Hc1 in IH1, IH2.
+      assert (Hrest : forall x, In x rest -> In x (heap st1)).
+      { intros x Hx. destruct (h_ev h) as [|s| |k0 i0 r0] eqn:Hev.
+        - destruct (iter_start st rest h st1 Hev E) as (tr & seed & rs & tc & _ & _ & _ & _ & _ & _ & _ & Hheap). apply Hheap. left. exact Hx.
+        - destruct (iter_complete st rest h st1 s Hev E) as (tr & _ & -> & _). exact Hx.
+        - exfalso. apply (HN h); [rewrite Hh; left; reflexivity|exact Hev].
+        - destruct (iter_result st rest h st1 k0 i0 r0 Hev E) as (tr & _ & -> & _). exact Hx. }
+      split.
+      * intros x k i r [<-|Hx] Hev Hdue; [|apply IH1; auto].
+        destruct (iter_result st rest h st1 k i r Hev E) as (tr & _ & _ & _ & _ & Hn & _).
+        eapply process_pending_mono; [|exact H]. unfold pending_in. rewrite Hn, lookup_set_key, Nat.eqb_refl.
+        eexists. split; [reflexivity|]. apply in_or_app. right. left. reflexivity.
+      * intros k run i r Hk Hr Hi Hdue. destruct (h_ev h) as [|s| |k0 i0 r0] eqn:Hev.
+        -- destruct (iter_start st rest h st1 Hev E) as (tr & seed & rs & tc & _ & _ & Hruns & _ & _ & _ & _ & Hheap).
+           destruct (Nat.eq_dec k (length (runs st))) as [->|Hne].
+           ++ (* the run created by this very start event *)
+              assert (Hrun1 : nth_error (runs st1) (length (runs st)) =
+                              Some (mkRun (h_trial h) (h_time h) (t_cfg tr) seed (lookup (h_trial h) (paused_at st)) rs)).
+              { rewrite Hruns, nth_error_app2 by lia. rewrite Nat.sub_diag. reflexivity. }
+              assert (Hsame : run = mkRun (h_trial h) (h_time h) (t_cfg tr) seed (lookup (h_trial h) (paused_at st)) rs).
+              { (* runs only grow in the loop *)
+                assert (Hpre : forall fuel' s s', process fuel' s = Ok s' -> forall j x, nth_error (runs s) j = Some x -> nth_error (runs s') j = Some x).
+                { intros fuel' s s' Hps j x Hj.
+                  apply (process_ind (fun s0 => nth_error (runs s0) j = Some x)) with (fuel := fuel') (st := s) (st' := s'); [|exact Hj|exact Hps].
+                  intros s0 h0 rest0 s1 HI0 _ _ Hp0. destruct (h_ev h0) as [|s2| |k2 i2 r2] eqn:Hev0.
+                  - destruct (iter_start s0 rest0 h0 s1 Hev0 Hp0) as (? & ? & ? & ? & _ & _ & -> & _).
+                    rewrite nth_error_app1; [exact HI0|]. apply nth_error_Some. congruence.
+                  - destruct (iter_complete s0 rest0 h0 s1 s2 Hev0 Hp0) as (? & _ & _ & -> & _). exact HI0.
+                  - destruct (iter_stop s0 rest0 h0 s1 Hev0 Hp0) as (_ & -> & _). exact HI0.
+                  - destruct (iter_result s0 rest0 h0 s1 k2 i2 r2 Hev0 Hp0) as (? & _ & _ & -> & _). exact HI0. }
+                pose proof (Hpre _ _ _ H _ _ Hrun1) as Hr'. congruence. }
+              subst run. simpl in Hi, Hdue |- *.
+              apply (IH1 (mkH (due_time (h_time h) r) (added st + i) (h_trial h) (EvResult (length (runs st)) i r))
+                         (length (runs st)) i r); [|reflexivity|exact Hdue].
+              apply Hheap. right. left. exists i, r. split; [exact Hi|reflexivity].
+           ++ apply IH2; auto. rewrite Hruns, app_length. simpl. lia.
+        -- destruct (iter_complete st rest h st1 s Hev E) as (tr & _ & _ & Hruns & _). apply IH2; auto. rewrite Hruns. exact Hk.
+        -- exfalso. apply (HN h); [rewrite Hh; left; reflexivity|exact Hev].
+        -- destruct (iter_result st rest h st1 k0 i0 r0 Hev E) as (tr & _ & _ & Hruns & _). apply IH2; auto. rewrite Hruns. exact Hk.
+    + injection H as <-.
+      assert (Hlt : clock st < h_time h).
+      { apply Qnot_le_lt. intro Hle. apply Qleb_le in Hle. congruence. }
+      split.
+      * intros x k i r Hx Hev Hdue. exfalso. destruct Hx as [<-|Hx]; [lra|].
+        destruct HI as [Hs _]. rewrite Hh in Hs. pose proof (sorted_head_min h rest Hs x Hx) as [Hk|[Hk _]]; lra.
+      * intros k run i r Hk Hr. assert (nth_error (runs st) k = None) by (apply nth_error_None; exact Hk). congruence.
+Qed.
+
+(* the loop "for trial_id in trial_ids": everything pending for a polled trial is handed out *)
+Lemma collect_acc ids : forall nr acc d, In d acc -> In d (fst (collect ids nr acc)).
+Proof.
+  induction ids as [|x ids IH]; intros nr acc d Hd; simpl; [exact Hd|].
+  destruct (lookup x nr); apply IH; [apply in_or_app; left|]; exact Hd.
+Qed.
+Lemma collect_complete ids : forall nr acc t l p,
+  In t ids -> lookup t nr = Some l -> In p l -> In (t, p) (fst (collect ids nr acc)).
+Proof.
+  induction ids as [|x ids IH]; intros nr acc t l p Hin Hl Hp; [contradiction|]. simpl.
+  destruct (Nat.eq_dec x t) as [->|Hne].
+  - rewrite Hl. apply collect_acc. apply in_or_app. right. apply in_map. exact Hp.
+  - destruct Hin as [E|Hin]; [congruence|].
+    destruct (lookup x nr) as [lx|]; [|eapply IH; eauto].
+    eapply IH; eauto. rewrite lookup_remove_key_neq; [exact Hl|congruence].
+Qed.
+
+Section Timely.
+Hypothesis nudge_nonneg : 0 <= nudge S_.
+
+Lemma fetch_timely st ids dt st' rs sts :
+  reach init_state st -> step st (OpFetch ids dt) = Ok (st', OutFetch rs sts) ->
+  (forall x, In x (heap st') -> clock st' < h_time x) /\ nextres st' = [] /\
+  (forall x k i r, In x (heap st) -> h_ev x = EvResult k i r -> h_time x <= clock st' -> In (h_trial x) ids ->
+     In (h_trial x, (k, i, r, h_time x)) rs) /\
+  (forall k run i r, (length (runs st) <= k)%nat -> nth_error (runs st') k = Some run ->
+     nth_error (run_results run) i = Some r -> due_time (run_te run) r <= clock st' -> In (run_trial run) ids ->
+     In (run_trial run, (k, i, r, due_time (run_te run) r)) rs).
+Proof.
+  intros Hr. pose proof (reach_B nudge_nonneg st Hr) as HB.
+  assert (HH : HInv st) by (exact (proj1 (proj1 HB))).
+  assert (HN : noStop st).
+  { intros x Hx Ev. apply (B_Q st HB x Hx). left. exact Ev. }
+  cbn [Sim.step]. unfold bind. destruct (advance st dt) as [st1|] eqn:E1; [|discriminate].
+  apply advance_ok in E1 as (_ & _ & ->).
+  destruct (Sim.process_now S_ tbl draw (set_clock st (qadd (clock st) dt))) as [st2|] eqn:E2; [|discriminate].
+  destruct (collect ids (nextres st2) []) as [rs0 nr] eqn:Ec.
+  destruct (statuses (trials (set_nextres st2 [])) ids); [|discriminate].
+  intro H. injection H as <- <- _.
+  pose proof (process_exit _ _ _ (HH : HInv (set_clock st _)) E2) as Hex.
+  destruct (process_due _ _ _ (HH : HInv (set_clock st _)) (HN : noStop (set_clock st _)) E2) as [D1 D2].
+  pose proof (process_clock _ _ _ _ _ _ E2) as Hc. simpl in Hc.
+  assert (Hrs : rs0 = fst (collect ids (nextres st2) [])) by (rewrite Ec; reflexivity).
+  split; [exact Hex|]. split; [reflexivity|]. simpl. rewrite Hc. split.
+  - intros x k i r Hx Hev Hdue Hin. destruct (D1 x k i r Hx Hev Hdue) as (l & Hl & Hp).
+    rewrite Hrs. eapply collect_complete; eauto.
+  - intros k run i r Hk Hrun Hi Hdue Hin. destruct (D2 k run i r Hk Hrun Hi Hdue) as (l & Hl & Hp).
+    rewrite Hrs. eapply collect_complete; eauto.
+Qed.
+End Timely.
 
 End Delivery.
